@@ -235,9 +235,11 @@ async fn run_async(ctx: &mut Ctx, which: Which) {
                 3 => {
                     // absurd total, many packets
                     let total = *ctx.tape.pick(&[0u64, 2, 16, 1000, u64::MAX]);
-                    let n = 1 + ctx.tape.choose(20) as usize;
+                    let n = 1 + ctx.tape.choose(24) as usize;
+                    // records in every packet, or only from some packet on (the first ones empty)
+                    let first_with_records = *ctx.tape.pick(&[0usize, 0, 3, 15, 17]);
                     for i in 0..n {
-                        let e = valid.get(i % valid.len().max(1)).cloned();
+                        let e = if i >= first_with_records { valid.get(i % valid.len().max(1)).cloned() } else { None };
                         packets.push((total, e.into_iter().collect()));
                     }
                 }
